@@ -92,6 +92,25 @@ class Bounds:
                 break
             e = pn(S, d)
             truth = (taken == "otherwise") if vals == [0] else (bool(taken) if taken != "otherwise" else None)
+            if e[0] == "discr" and taken != "otherwise":
+                # slice.get(i) is Some (or its `?` continues) exactly when i < len(slice)
+                g = e[1]
+                if g[0] == "call" and g[1].endswith("Try>::branch") and len(g[2]) == 1:
+                    g = g[2][0]
+                if g[0] == "call" and g[1].endswith("::get") and len(g[2]) == 2:
+                    vn = S.variant(d, taken)
+                    base = g[2][0]
+                    while base[0] in ("ref", "cast", "deref"):
+                        base = base[-1]
+                    ln_ = None
+                    if base[0] == "table" and TABLES[0] is not None:
+                        tv = TABLES[0](base[1])
+                        ln_ = len(tv) if tv else None
+                    if ln_ is not None and vn in ("Some", "Continue"):
+                        self._hi(g[2][1], ln_ - 1)
+                    elif ln_ is not None and vn in ("None", "Break"):
+                        self._lo(g[2][1], ln_)
+                    continue
             if e[0] == "discr" and e[1][0] == "call" and e[1][1].endswith("::try_from") and len(e[1][2]) == 1 and taken != "otherwise":
                 # uN::try_from(x): Ok iff x <= uN::MAX
                 import re as _re
@@ -1419,6 +1438,13 @@ def derived_rels(exprs):
                           and y[1][1][1].endswith("::try_from") and len(y[1][1][2]) == 1):
             out.append((x, x[1][1][2][0], False))
             out.append((x[1][1][2][0], x, False))
+        # the Some payload of a.checked_sub(b) / checked_add is a - b / a + b
+        for x in find_all(e, lambda y: y[0] == "field" and y[2] == 0 and y[1][0] == "variant" and y[1][2] == "Some" and y[1][1][0] == "call"
+                          and y[1][1][1].endswith(("::checked_sub", "::checked_add")) and len(y[1][1][2]) == 2):
+            c_ = x[1][1]
+            val = ("bin", "Sub" if c_[1].endswith("checked_sub") else "Add", c_[2][0], c_[2][1])
+            out.append((x, val, False))
+            out.append((val, x, False))
         # a truncating integer cast of an unsigned value never exceeds the value
         for x in find_all(e, lambda y: y[0] == "cast" and y[1] == "IntToInt" and str(y[2]).startswith("u")):
             out.append((x, x[3], False))
@@ -1522,6 +1548,13 @@ def relational(F, S, b, p, s, envs):
         for (bb, kind, c, expected, m) in p.asserts:
             if bb == s.bb:
                 cond = pn(S, c)
+        if cond is not None and t["msg"]["kind"] == "bounds" and cond[0] == "bin" and cond[1] == "Lt":
+            # index < len from linear facts (e.g. index = checked_sub(i, 1) payload with i < len known from a successful get(i))
+            for env in env_list:
+                rels = list(B.rel) + derived_rels(conds_n + [cond])
+                if not le(("bin", "Add", cond[2], C(1)), cond[3], B, env, tyof, rels):
+                    return None
+            return "linear-relational-index"
         if cond is None or cond[0] != "ovf" or t["msg"]["kind"] != "overflow":
             return None
         aty = operand_ty(b, t["msg"].get("a"))
